@@ -315,5 +315,48 @@ func pingServerCase(tr string) (string, error) {
 	if resp.To != req.From {
 		return fmt.Sprintf("ping response addressed to %v, want %v", resp.To, req.From), nil
 	}
+	// pipelined pings: several requests are on their way before the first reply is looked at, on this
+	// session and on a second one of the same server. Every reply carries the id of its own request
+	// and is addressed to its own requester, in request order per session.
+	ct2, err := dial()
+	if err != nil {
+		return "", err
+	}
+	cc2 := lime.NewClientChannel(ct2, 8)
+	defer func() { go cc2.Close() }()
+	ses2, err := cc2.EstablishSession(ctx, lime.NoneCompressionSelector, lime.NoneEncryptionSelector,
+		lime.Identity{Name: "0b1f3a52-9f0d-4c0b-8d5e-0a4d4f1f2c22", Domain: "verif.local"}, lime.GuestAuthenticator, "j")
+	if err != nil || ses2.State != lime.SessionStateEstablished {
+		return "", fmt.Errorf("c11 ping: establish second session: %v", err)
+	}
+	const n = 6
+	for k := 0; k < n; k++ {
+		for si, ch := range []*lime.ClientChannel{cc, cc2} {
+			r := &lime.RequestCommand{}
+			r.ID = fmt.Sprintf("pp-%d-%d", si, k)
+			r.Method = lime.CommandMethodGet
+			r.SetURIString("/ping")
+			r.From = ch.LocalNode()
+			if err := ch.SendRequestCommand(ctx, r); err != nil {
+				return "", fmt.Errorf("c11 ping: pipelined send: %v", err)
+			}
+		}
+	}
+	for si, ch := range []*lime.ClientChannel{cc, cc2} {
+		for k := 0; k < n; k++ {
+			select {
+			case r, ok := <-ch.RespCmdChan():
+				if !ok {
+					return fmt.Sprintf("pipelined pings: the response stream of session %d ended after %d of %d replies", si, k, n), nil
+				}
+				want := fmt.Sprintf("pp-%d-%d", si, k)
+				if r.ID != want || r.To != ch.LocalNode() || r.Status != lime.CommandStatusSuccess {
+					return fmt.Sprintf("pipelined pings: reply %d on session %d has id %q to %v status %q, want id %q to %v", k, si, r.ID, r.To, r.Status, want, ch.LocalNode()), nil
+				}
+			case <-time.After(3 * time.Second):
+				return fmt.Sprintf("pipelined pings: reply %d of %d on session %d did not arrive", k, n, si), nil
+			}
+		}
+	}
 	return "", nil
 }
